@@ -172,7 +172,7 @@ def reference(case, ids, bundles):
 
 def run_case(case, ctx, pool_kind):
     import typhon.files.fileset as FS
-    from typhon.files import FileHandler, FileSet
+    from typhon.files import FileHandler, FileInfo, FileSet
     n = case["n"]
     method = case["method"]
     workers = case["workers"]
@@ -228,6 +228,13 @@ def run_case(case, ctx, pool_kind):
                     "list": list, "tuple": tuple, "iter": iter,
                     "generator": lambda fs_: (f for f in fs_),
                     "paths": lambda fs_: [f.path for f in fs_],
+                    # FileInfo objects made by the caller (not the ones the
+                    # fileset caches): they carry an attribute of their own,
+                    # which func and return_info must see again
+                    "own-infos": lambda fs_: [
+                        FileInfo(f.path, list(f.times),
+                                 dict(f.attr, caller="c10-%s" % f.attr["id"]))
+                        for f in fs_],
                 }[how](found)
                 ctx.label("files-arg", "files-as-" + how)
             else:
@@ -338,6 +345,13 @@ def run_case(case, ctx, pool_kind):
                                   and list(info.times) == [
                                       by_id[unit[0]].t0, by_id[unit[0]].t1],
                                   "results/wrong-file-info", where)
+                        if case.get("files_as") == "own-infos" \
+                                and case["select"] == "files":
+                            ctx.check(info.attr.get("caller")
+                                      == "c10-%d" % unit[0],
+                                      "results/not-the-callers-file-info",
+                                      lambda: "attr %r; %s" % (
+                                          dict(info.attr), where()))
                     else:
                         ctx.check([int(f.attr["id"]) for f in info] == unit,
                                   "results/wrong-file-info", where)
@@ -722,13 +736,14 @@ def sampled_cases(draw, real=False):
                                  st.integers(0, n - 1))))
     if select == "files":
         case["files_as"] = draw(st.sampled_from(
-            ["list", "list", "tuple", "iter", "generator", "paths"]))
+            ["list", "list", "tuple", "iter", "generator", "paths",
+             "own-infos", "own-infos"]))
     if select == "files" and draw(st.booleans()):
         case["subset"] = draw(st.one_of(
             st.just([]), st.lists(st.integers(0, n - 1), max_size=n),
             st.lists(st.integers(0, n - 1), max_size=n)))
         case["files_as"] = draw(st.sampled_from(
-            ["list", "tuple", "iter", "generator", "paths"]))
+            ["list", "tuple", "iter", "generator", "paths", "own-infos"]))
         if method == "collect" and not case["subset"]:
             case["subset"] = [0]     # collect() needs at least one content
         if method == "collect":
